@@ -15,9 +15,13 @@ LEVEL = {
  "C10": ("model_checking", "adversarial builder universes (reused explicit ids, equal ids with different bounds incl. equal sums and the -1/-2 pair, self references, shared sub-propositions) enumerated by TLC; recorded errors() must satisfy accepted => WellDefined and TreeDistinct/SharesIdenticalOnly => accepted."),
  "C16": ("model_checking", "TLC enumerates recipes over every class of the JSON class map (incl. defaulted configurator Any/Xor and StingyConfigurator) and validates recorded to_json -> json.dumps/loads -> from_json round trips: same leaves and bounds, equal evaluation on the complete box (library results and structurally), explicit ids kept, no id emitted for generated ones, configurators: same tags, default priorities and polyhedron solution set up to generated-id naming."),
  "C17": ("model_checking", "recorded to_b64/from_b64 round trips of propositions and configurator polyhedra are compared by TLC field by field on abstract values (projection, to_short forms, a fixed query battery incl. select with capture and brute-force solvers; unpack - mutate - unpack again); the byte format itself is outside the model."),
+ "C11": ("model_checking", "the fixpoint loop of reducable_rows_and_columns is a TLA+ machine (PuanPoly) whose every step is checked by TLC to preserve the lifted solution set on all matrices of the universe (plus termination under fairness); every matrix is replayed into the library: one-shot result, hook events of the real loop, and the public sub-operations are validated by TLC by enumeration of the integer box."),
+ "C12": ("model_checking", "Tighten/RowBounds/NComb are transcribed with explicit floor arithmetic and checked by TLC against enumeration on the universe; recorded tighten_column_bounds/row_bounds/column_bounds/n_row_combinations (queried twice on the same object in rotated order) are validated by enumeration."),
+ "C19": ("model_checking", "spec functions Sat/Sep/RowSep for 1-D, 2-D, 3-D point arrays; recorded ineqs_satisfied/separable/ineq_separate_points must equal them (matrices from the PuanPoly universe and random ones, points inside and outside the declared bounds)."),
+ "C20": ("model_checking", "PuanBridge enumerates variable lists x dictionaries x lists and states what construct / index partition / from_list / to_list mean; recorded results (int, float and callable defaults, non-string and unicode ids, nested lists) must equal the spec functions."),
 }
 NOTE = "trusted: TLC/SANY + CommunityModules Json; harness/proj.py (projection of public attributes) and harness/tlaval.py; exhaustive only inside the universes listed in the evidence (spec_runs); random batch is seeded by VERIF_SEED"
-TECH = "explicit TLA+ spec (PuanModel/PuanCtor/PuanBuild) model-checked by TLC + TLC trace validation (PuanTrace) of recorded implementation events"
+TECH = "explicit TLA+ spec (PuanModel/PuanCtor/PuanBuild/PuanPoly/PuanBridge) model-checked by TLC + TLC trace validation (PuanTrace) of recorded implementation events"
 ALL = ["C%02d" % i for i in range(1, 21)]
 checks, na = [], []
 for p in ALL:
